@@ -93,7 +93,16 @@ func (t *PatternType) Get(key string) (value px.Value, ok bool) {
 }
 
 func (t *PatternType) IsAssignable(o px.Type, g px.Guard) bool {
-	if _, ok := o.(*PatternType); ok {
+	if op, ok := o.(*PatternType); ok {
+		if len(t.regexps) == 0 {
+			return true
+		}
+		// Every string matched by the other pattern must be matched by this. That can only be asserted
+		// when each of the other's regexps is also one of ours.
+		return len(op.regexps) > 0 && px.IncludesAll(op.regexps, t.regexps, g)
+	}
+
+	if _, ok := o.(*scStringType); ok {
 		return len(t.regexps) == 0
 	}
 
